@@ -463,26 +463,29 @@ Proof.
   rewrite (mem_nat_in pp starts (Hst pp HL Hpp)). reflexivity.
 Qed.
 
-Lemma check_parts_ok b L (P R : list nat) : forall ps dps pos e, parts_at b L ps pos e -> e <= length b ->
-  Forall2 lpart_rel ps dps -> Forall part_wf ps ->
+Lemma check_parts_ok b L (nocomp : bool) (P R : list nat) : forall ps dps pos e, parts_at b L ps pos e -> e <= length b ->
+  Forall2 lpart_rel ps dps -> Forall part_wf ps -> (nocomp = true -> Forall part_plain ps) ->
   (forall s, L s -> In s (P ++ parts_starts ps ++ R)) -> (forall s, In s P -> s < pos) ->
   (forall s, In s R -> e <= s) ->
-  check_parts b false P dps = Ok (P ++ parts_starts ps).
+  check_parts b nocomp P dps = Ok (P ++ parts_starts ps).
 Proof.
-  intros ps. revert P. induction ps as [|[ch comp|p d] r IH]; intros P dps pos e Hat He Hrel Hwf HL HP HR.
+  intros ps. revert P. induction ps as [|[ch comp|p d] r IH]; intros P dps pos e Hat He Hrel Hwf Hpl HL HP HR.
   - inversion Hrel; subst. simpl. rewrite app_nil_r. reflexivity.
   - inversion Hrel as [|? dp ? dps' Hr Hrel']; subst. inversion Hwf as [|? ? HW Hwf']; subst. destruct HW as [W1 W2].
     destruct dp as [n' pos' c|]; simpl in Hr; [|contradiction]. destruct Hr as [_ [-> ->]].
     simpl in Hat. destruct Hat as [Hp [Hch [Hn [Hle Hat]]]]. pose proof (proj1 Hch) as Hlt.
     pose proof (parts_le _ _ _ _ _ Hat) as Hpe.
-    cbn [check_parts]. simpl orb.
-    rewrite (check_name_ok b L ch (negb comp) P Hch W1 ltac:(lia)).
+    cbn [check_parts].
+    rewrite (check_name_ok b L ch (nocomp || negb comp) P Hch W1 ltac:(lia)).
     + cbn [bind]. simpl parts_starts. rewrite app_assoc.
       apply (IH (P ++ chunk_starts ch) dps' (nc_end ch) e); auto.
+      * intros Hn'. specialize (Hpl Hn'). inversion Hpl; auto.
       * intros s Hs. specialize (HL s Hs). simpl in HL. rewrite <- !app_assoc. rewrite <- app_assoc in HL. exact HL.
       * intros s Hs. apply in_app_iff in Hs as [Hs|Hs]; [apply HP in Hs; lia|].
         apply (chunk_starts_bound b L ch s Hch) in Hs; lia.
-    + intros Hc. apply Hn. destruct comp; [discriminate|reflexivity].
+    + intros Hc. apply orb_true_iff in Hc as [Hc|Hc].
+      * specialize (Hpl Hc). inversion Hpl; auto.
+      * apply Hn. destruct comp; [discriminate|reflexivity].
     + intros s Hs Hlt'. specialize (HL s Hs). simpl in HL. rewrite !in_app_iff in HL.
       destruct HL as [K|[[K|K]|K]]; auto.
       * apply (chunk_starts_bound b L ch s Hch) in K; lia.
@@ -493,7 +496,8 @@ Proof.
     simpl in Hat. destruct Hat as [-> [_ [Hs [Hle Hat]]]].
     cbn [check_parts]. simpl parts_starts.
     apply (IH P dps' (pos + length d) e); auto.
-    intros s Hs'. apply HP in Hs'. lia.
+    + intros Hn'. specialize (Hpl Hn'). inversion Hpl; auto.
+    + intros s Hs'. apply HP in Hs'. lia.
 Qed.
 
 Definition rr_wfL (r : lrr) : Prop := wf_name (nc_name (lr_owner r)) /\ Forall part_wf (lr_parts r).
@@ -509,25 +513,26 @@ Definition rlink (r : lrr) (d : drr) : Prop :=
   dr_pos d = nc_pos (lr_owner r) /\ Forall2 lpart_rel (lr_parts r) (dr_parts d).
 
 Lemma check_rrs_ok b L : forall rs ds es (P R : list nat) pos e, rrs_at b L rs pos e -> e <= length b ->
-  Forall2 rlink rs ds -> Forall rr_wfL rs -> Forall (fun a => a_nocomp a = false) es -> length es = length ds ->
+  Forall2 rlink rs ds -> Forall rr_wfL rs -> Forall2 (fun a r => a_nocomp a = true -> rr_plain r) es rs ->
   (forall s, L s -> In s (P ++ rrs_starts rs ++ R)) -> (forall s, In s P -> s < pos) ->
   (forall s, In s R -> e <= s) ->
   check_rrs b P es ds = Ok (P ++ rrs_starts rs).
 Proof.
-  induction rs as [|r rest IH]; intros ds es P R pos e Hat He Hlk Hwf Hes Hlen HL HP HR.
+  induction rs as [|r rest IH]; intros ds es P R pos e Hat He Hlk Hwf Hes HL HP HR.
   - inversion Hlk; subst. destruct es; simpl; rewrite app_nil_r; reflexivity.
   - inversion Hlk as [|? d ? ds' [Lp Lparts] Hlk']; subst. inversion Hwf as [|? ? [W1 W2] Hwf']; subst.
-    destruct es as [|a es']; [simpl in Hlen; discriminate|]. inversion Hes as [|? ? Ha Hes']; subst.
+    inversion Hes as [|a ? es' ? Ha Hes']; subst.
     simpl in Hat. destruct Hat as [Hp [Hr [Hle Hat]]]. pose proof Hr as [Ho [Hf [Hle2 Hparts]]].
     pose proof (proj1 Ho) as Hlt. pose proof (rrs_le _ _ _ _ _ Hat) as Hre.
-    cbn [check_rrs]. rewrite Ha, Lp.
-    rewrite (check_name_ok b L (lr_owner r) false P Ho W1 ltac:(lia)); [|discriminate|].
+    cbn [check_rrs]. rewrite Lp.
+    rewrite (check_name_ok b L (lr_owner r) (a_nocomp a) P Ho W1 ltac:(lia)); [|intros Hn; apply (Ha Hn)|].
     2:{ intros s Hs Hlt'. specialize (HL s Hs). rewrite !in_app_iff in HL. destruct HL as [K|[K|K]]; auto.
         - apply (rrs_starts_bound b L (r :: rest) pos e s) in K; [lia| |lia].
           simpl. split; auto.
         - apply HR in K. lia. }
     cbn [bind].
-    rewrite (check_parts_ok b L (P ++ chunk_starts (lr_owner r)) (rrs_starts rest ++ R) (lr_parts r) (dr_parts d)
+    assert (Hplp : a_nocomp a = true -> Forall part_plain (lr_parts r)) by (intros Hn; apply (Ha Hn)).
+    rewrite (check_parts_ok b L (a_nocomp a) (P ++ chunk_starts (lr_owner r)) (rrs_starts rest ++ R) (lr_parts r) (dr_parts d)
                (nc_end (lr_owner r) + 10) (lr_end r)); auto; try lia.
     + cbn [bind].
       assert (Eq : P ++ rrs_starts (r :: rest) =
@@ -552,19 +557,19 @@ Qed.
 
 Lemma check_qs_ok b L : forall qs ds es (P R : list nat) pos e, qs_at b L qs pos e -> e <= length b ->
   Forall2 (fun q d => dq_pos d = nc_pos (lq_name q)) qs ds -> Forall (fun q => wf_name (nc_name (lq_name q))) qs ->
-  Forall (fun a => a_nocomp a = false) es -> length es = length ds ->
+  Forall2 (fun a q => a_nocomp a = true -> nc_sh (lq_name q) = None) es qs ->
   (forall s, L s -> In s (P ++ qs_starts qs ++ R)) -> (forall s, In s P -> s < pos) ->
   (forall s, In s R -> e <= s) ->
   check_qs b P es ds = Ok (P ++ qs_starts qs).
 Proof.
-  induction qs as [|q rest IH]; intros ds es P R pos e Hat He Hlk Hwf Hes Hlen HL HP HR.
+  induction qs as [|q rest IH]; intros ds es P R pos e Hat He Hlk Hwf Hes HL HP HR.
   - inversion Hlk; subst. destruct es; simpl; rewrite app_nil_r; reflexivity.
   - inversion Hlk as [|? d ? ds' Lp Hlk']; subst. inversion Hwf as [|? ? W1 Hwf']; subst.
-    destruct es as [|a es']; [simpl in Hlen; discriminate|]. inversion Hes as [|? ? Ha Hes']; subst.
+    inversion Hes as [|a ? es' ? Ha Hes']; subst.
     simpl in Hat. destruct Hat as [Hp [[Ho Hf] [Hle Hat]]].
     pose proof (proj1 Ho) as Hlt. pose proof (qs_le _ _ _ _ _ Hat) as Hre.
-    cbn [check_qs]. rewrite Ha, Lp.
-    rewrite (check_name_ok b L (lq_name q) false P Ho W1 ltac:(lia)); [|discriminate|].
+    cbn [check_qs]. rewrite Lp.
+    rewrite (check_name_ok b L (lq_name q) (a_nocomp a) P Ho W1 ltac:(lia)); [|exact Ha|].
     2:{ intros s Hs Hlt'. specialize (HL s Hs). rewrite !in_app_iff in HL. destruct HL as [K|[K|K]]; auto.
         - apply (qs_starts_bound b L (q :: rest) pos e s) in K; [lia| |lia].
           simpl. split; auto. split; [split; auto|auto].
